@@ -14,7 +14,9 @@ def draw_layout(rng, **kw) -> dict:
     mf = kw.get("max_features", 12)
     for _ in range(50):
         d = _draw_layout(rng, **kw)
-        if gen.n_features_total(d) <= mf:
+        # (fewer than three features is a degenerate family: two standardised features always give the
+        #  +-45 degree EOFs, whose sign and rotation are decided by exact ties - no oracle is sound there)
+        if 3 <= gen.n_features_total(d) <= mf:
             return d
     raise RuntimeError("could not draw a layout within the feature budget")
 
